@@ -124,3 +124,66 @@ package statebackend
 //@   callsite OnReorgWithBatch@*: into_the_batch: $1 == txn
 //@   ensures all_steps_once: result == nil ==> calls_LegacyRevert == old(calls_LegacyRevert) + 1 && calls_deleteBlockContent == old(calls_deleteBlockContent) + 1 && calls_OnReorgWithBatch == old(calls_OnReorgWithBatch) + 1
 //@   ensures filter_with_the_batch: calls_OnReorg == old(calls_OnReorg)
+
+// ---- storing a block: one transaction; every step once, through the transaction's batch (C05) -----
+// The transaction body of Store is the closure Store$1: verify that the block extends the head,
+// apply the state update, write the block's content and advance the running event filter, all
+// through the one batch that the database commits or drops as a whole (the commit/drop itself is
+// C15's contract on db.Write/Update). memory_follows_commit is the part of C05 that the code does
+// NOT satisfy (known finding F5a, DESIGN.md 10.2b): InsertWithBatch advances the IN-MEMORY filter
+// inside the body, before the commit, so a failed commit leaves memory ahead of the disk.
+//@ extern func github.com/NethermindEth/juno/core/state.(*State).Update
+//@   logged as StateUpdate
+//@ extern func github.com/NethermindEth/juno/core/deprecatedstate.(*State).Update
+//@   logged as LegacyUpdate
+//@ func writeBlockContent
+//@   trusted
+//@   logged
+//@ extern func github.com/NethermindEth/juno/core.(*RunningEventFilter).InsertWithBatch
+//@   logged as InsertWithBatch
+//@ extern func github.com/NethermindEth/juno/core.(*RunningEventFilter).Insert
+//@   logged as FilterInsert
+//@ func (*stateBackend).Store
+//@   props C05
+//@   arith int
+//@   requires b != nil && b.database != nil
+//@   modifies *
+//@   assigns writeErr, calls_DBWrite, arg_DBWrite_fn
+//@   ensures one_transaction: calls_DBWrite == old(calls_DBWrite) + 1 && result == writeErr
+//@   ensures filter_only_inside: calls_FilterInsert == old(calls_FilterInsert) && calls_InsertWithBatch == old(calls_InsertWithBatch)
+//@ func (*stateBackend).Store$1
+//@   props C05
+//@   arith int
+//@   nosafe
+//@   requires *b != nil && (*b).database != nil && (*b).runningFilter != nil && *block != nil && (*block).Header != nil && (*block).ParentHash != nil && *stateUpdate != nil
+//@   modifies *
+//@   assigns headExists, headNumber, headHash, headReadFailed, calls_StateUpdate, arg_StateUpdate_header, arg_StateUpdate_update, arg_StateUpdate_declaredClasses, arg_StateUpdate_skipVerifyNewRoot, calls_writeBlockContent, arg_writeBlockContent_reader, arg_writeBlockContent_writer, arg_writeBlockContent_block, arg_writeBlockContent_stateUpdate, arg_writeBlockContent_commitments, arg_writeBlockContent_newClasses, calls_InsertWithBatch, arg_InsertWithBatch_batch, arg_InsertWithBatch_bloom, arg_InsertWithBatch_blockNumber
+//@   callsite writeBlockContent@*: this_block_into_the_batch: $1 == batch && $2 == *block && $3 == *stateUpdate
+//@   callsite InsertWithBatch@*: this_block_into_the_batch: $1 == batch && $2 == (*block).EventsBloom && $3 == (*block).Number
+//@   callsite Update@*: verified_root: $1 == (*block).Header && $2 == *stateUpdate && !$4
+//@   ensures all_steps_once: result == nil ==> calls_StateUpdate == old(calls_StateUpdate) + 1 && calls_writeBlockContent == old(calls_writeBlockContent) + 1 && calls_InsertWithBatch == old(calls_InsertWithBatch) + 1
+//@   ensures extends_the_head: result == nil && headExists && headNumber < (1<<64) - 1 ==> (*block).Number == headNumber + 1
+//@   ensures filter_with_the_batch: calls_FilterInsert == old(calls_FilterInsert)
+//@   ensures memory_follows_commit: calls_InsertWithBatch == old(calls_InsertWithBatch)
+//@ func (*deprecatedStateBackend).Store
+//@   props C05
+//@   arith int
+//@   requires b != nil && b.database != nil
+//@   modifies *
+//@   assigns writeErr, calls_DBUpdate, arg_DBUpdate_fn
+//@   ensures one_transaction: calls_DBUpdate == old(calls_DBUpdate) + 1 && result == writeErr
+//@   ensures filter_only_inside: calls_FilterInsert == old(calls_FilterInsert) && calls_InsertWithBatch == old(calls_InsertWithBatch)
+//@ func (*deprecatedStateBackend).Store$1
+//@   props C05
+//@   arith int
+//@   nosafe
+//@   requires *b != nil && (*b).database != nil && (*b).runningFilter != nil && *block != nil && (*block).Header != nil && (*block).ParentHash != nil && *stateUpdate != nil
+//@   modifies *
+//@   assigns headExists, headNumber, headHash, headReadFailed, calls_LegacyUpdate, arg_LegacyUpdate_header, arg_LegacyUpdate_update, arg_LegacyUpdate_declaredClasses, arg_LegacyUpdate_skipVerifyNewRoot, calls_writeBlockContent, arg_writeBlockContent_reader, arg_writeBlockContent_writer, arg_writeBlockContent_block, arg_writeBlockContent_stateUpdate, arg_writeBlockContent_commitments, arg_writeBlockContent_newClasses, calls_InsertWithBatch, arg_InsertWithBatch_batch, arg_InsertWithBatch_bloom, arg_InsertWithBatch_blockNumber
+//@   callsite writeBlockContent@*: this_block_into_the_batch: $1 == txn && $2 == *block && $3 == *stateUpdate
+//@   callsite InsertWithBatch@*: this_block_into_the_batch: $1 == txn && $2 == (*block).EventsBloom && $3 == (*block).Number
+//@   callsite Update@*: verified_root: $1 == (*block).Header && $2 == *stateUpdate && !$4
+//@   ensures all_steps_once: result == nil ==> calls_LegacyUpdate == old(calls_LegacyUpdate) + 1 && calls_writeBlockContent == old(calls_writeBlockContent) + 1 && calls_InsertWithBatch == old(calls_InsertWithBatch) + 1
+//@   ensures extends_the_head: result == nil && headExists && headNumber < (1<<64) - 1 ==> (*block).Number == headNumber + 1
+//@   ensures filter_with_the_batch: calls_FilterInsert == old(calls_FilterInsert)
+//@   ensures memory_follows_commit: calls_InsertWithBatch == old(calls_InsertWithBatch)
